@@ -271,7 +271,8 @@ func (t *RichTree) AddRichChild(r *hx.Rng, parent int) *Node {
 				gas := uint64(200000)
 				kind = "create-" + l.Name
 				if r.Intn(6) == 0 {
-					gas = 54000 + uint64(r.Intn(3000)) // out of gas during init / code deposit
+					ig, _ := core.IntrinsicGas(Deployer(l.Code), true, true)
+					gas = ig + uint64(r.Intn(3000)) // out of gas during init / code deposit
 					kind = "create-oog"
 				}
 				val := big.NewInt(0)
@@ -424,3 +425,6 @@ func (t *Tree) PathIDs(id int) []int {
 	}
 	return rev
 }
+
+// UncleCandidates lists the nodes a child of `parent` could include as uncles.
+func (t *RichTree) UncleCandidates(parent int) []int { return t.uncleCandidates(parent) }
